@@ -384,3 +384,29 @@ def run_faults(ctx, want=("cap", "io", "short")):
             elif not _same_log(mlog, log):
                 ctx.disagree("id3 file programs: sequence of file-object calls", case, model=",".join(mlog)[:300], impl=",".join(log)[:300])
     return len(jobs)
+
+
+def repro_determine_bpi():
+    """the open finding `determine-bpi` (Props/C01_Id3Tag.lean `determine_bpi_misfire`, same tag) on the real code: two PRIV frames
+    saved by mutagen as ID3v2.4; the second one's data spells three frame headers "TIT2 00000002 0000" with an undecodable body at
+    the tag offset (266) where the plain-integer reading of the first frame's syncsafe size (00 00 01 00 = 128, read as 256) lands;
+    determine_bpi counts 4 frames under the plain reading against 2 and chooses it: on reload the two frames are not there.
+    -> (frames region length, determine_bpi answer, number of frames after reload, second PRIV intact?)"""
+    import io
+    from mutagen import id3 as I
+    from mutagen.id3._tags import determine_bpi
+    from mutagen.id3._frames import Frames
+    a = I.PRIV(owner="a", data=b"\x55" * 126)
+    fake = b"TIT2\x00\x00\x00\x02\x00\x00\x09A"
+    b = I.PRIV(owner="b", data=b"\x11" * 116 + fake * 3)
+    tags = I.ID3(); tags.add(a); tags.add(b)
+    f = io.BytesIO(b"\xff\xfb\x90\x00" + b"\x55" * 300)
+    tags.save(f, padding=lambda info: 0)
+    data = f.getvalue()
+    size = (data[6] << 21) | (data[7] << 14) | (data[8] << 7) | data[9]
+    area = data[10:10 + size]
+    answer = determine_bpi(area, Frames).__name__
+    back = I.ID3(io.BytesIO(data))
+    keys = sorted(back.keys())
+    intact = any(getattr(fr, "owner", None) == "b" and fr.data == b.data for fr in back.values())
+    return len(area), answer, len(keys), intact
